@@ -80,6 +80,61 @@ def collect(chk, pid, jobs):
 SYS_PROPS = dict(invariants=['SYS_ExactlyOnce', 'SYS_ViewsTruthful', 'SYS_IdleMeansIdle', 'SYS_Rest', 'SYS_ReleasedFlyOrParked', 'SYS_ParkedNotFlying'], properties=['SYS_ReloadOnlyWhenTrulyAllowed', 'SYS_NoDispatchWhileInactive', 'SYS_NoArchiveOverParked'])
 
 
+def scarcity_histories(chk, thorough, rnd, cap=600):
+    """guided instance 2 of System_Gen (worker scarcity): an archive is due and a unit is released while no worker is there;
+    it waits in the farm; from there everything (workers arriving, scarce / plentiful passes, submissions), maximal histories"""
+    cfg = os.path.join(chk.work, 'gen_guided2.cfg')
+    tlc.write_cfg(cfg, spec='Guided2Spec', constants={'MaxRun': '3', 'MaxSubmit': '1', 'MaxCycle': '0'}, extra=['VIEW View', 'ACTION_CONSTRAINT Emit'])
+    res = tlc.run('System_Gen.tla', cfg, workers=1, timeout=1800, out_file=os.path.join(chk.work, 'gen_guided2.out'))
+    if not res.ok:
+        raise core.Machinery(f'generation gen_guided2 failed: {res.error or res.violated}')
+    chk.mc_runs.append(dict(res.summary(), name='gen_guided2', module='System_Gen.tla'))
+    guided2 = leaves([json.loads(r[1])['h'] for r in tlc.printed(res, 'SCHED')])
+    chk.counters['system_scarcity_histories'] = len(guided2)
+    if not thorough:
+        rnd.shuffle(guided2)
+        # every history in which a worker arrives while a unit waits and a scarce pass follows; a sample of the rest
+        hot = [h for h in guided2 if any(e['ev'] == 'WorkerArrive' for e in h[5:])]
+        guided2 = hot[:cap] + [h for h in guided2 if not any(e['ev'] == 'WorkerArrive' for e in h[5:])][: cap // 4]
+    return guided2
+
+
+def system_replay(chk, pid, hs):
+    """run composed histories on the real FSM + real scheduler / farm (harness/compose_h.py) and let TLC judge them (System_Trace)"""
+    jobs = [{'id': i, 'events': h, 'drain': True} for i, h in enumerate(hs)]
+    files = chk.run_harness('compose_h', jobs)
+    chk.traces += len(jobs)
+    rows = chk.validate('System_Trace.tla', dict(spec='TraceSpec', constants={'MaxRun': '1000000', 'MaxSubmit': '1000000', 'MaxCycle': '1000000'}, extra=['POSTCONDITION AllConsumed']), files)
+    for r in rows['DRIFT']:
+        chk.drift += 1
+        if len(chk.drift_samples) < 5:
+            chk.drift_samples.append({'system_trace': r[1], 'line': r[2], 'ev': r[3], 'events': jobs[r[1]]['events']})
+    for _tag, tid, line, ev, bad in rows['CLAUSE']:
+        for clause in sorted(bad['set']):
+            job = jobs[tid]
+            kinds = [e['ev'] + (':' + str(e.get('p') or e.get('k') or e.get('x') or '')).rstrip(':') for e in job['events']]
+            sig = 'system:' + (','.join(kinds[: line - 1]) if line - 1 <= len(kinds) else ','.join(kinds) + ',drain')
+            chk.add_violation(pid + '.' + clause, sig, {'trace': tid, 'line': line, 'event': ev}, {'system_job': job, 'line': line})
+    return jobs, files
+
+
+def scarcity(chk, pid, thorough, rnd):
+    """C03 (a released unit is handed to at most one worker and otherwise stays queued) through the composed system with
+    scarce workers: the model instance is checked by TLC, its histories run on the real code, the traces are judged by TLC"""
+    sc = {'MaxRun': '2', 'MaxSubmit': '1', 'MaxCycle': '1'}
+    chk.mc('mc_system', 'System.tla', dict(spec='Spec', constants=sc, **SYS_PROPS))
+    hs = scarcity_histories(chk, thorough, rnd, cap=400)
+    jobs, files = system_replay(chk, pid, hs)
+    parked = 0
+    for fn in files:
+        with open(fn) as f:
+            for ln in f:
+                parked += sum(1 for st in json.loads(ln)['steps'] if st['st']['park'])
+    chk.counters.update(system_scarcity_schedules=len(jobs), steps_with_a_unit_waiting_in_the_farm=parked)
+    if not parked and not chk.violations:
+        raise core.Machinery('vacuous run: no step with a unit waiting in the farm')
+
+
 def composition(chk, pid, thorough, seed, rnd):
     '''spec/System.tla: the crossroads on top of the REAL scheduler / farm; the C12 conditions judged against ground truth'''
     sc = {'MaxRun': '2', 'MaxSubmit': '2', 'MaxCycle': '1'}
@@ -115,19 +170,7 @@ def composition(chk, pid, thorough, seed, rnd):
         # a waiter that looks (and, in the correct code, may have to keep waiting) is what matters here
         looks = [h for h in guided if any(e['ev'] == 'PollerObserve' for e in h)]
         guided = looks + [h for h in guided if not any(e['ev'] == 'PollerObserve' for e in h)][:300]
-    # guided instance 2 (worker scarcity): an archive is due and a unit is released while no worker is there; it waits in
-    # the farm; from there everything (workers arriving, scarce / plentiful passes, submissions), maximal histories
-    cfg = os.path.join(chk.work, 'gen_guided2.cfg')
-    tlc.write_cfg(cfg, spec='Guided2Spec', constants={'MaxRun': '3', 'MaxSubmit': '1', 'MaxCycle': '0'}, extra=['VIEW View', 'ACTION_CONSTRAINT Emit'])
-    res = tlc.run('System_Gen.tla', cfg, workers=1, timeout=1800, out_file=os.path.join(chk.work, 'gen_guided2.out'))
-    if not res.ok:
-        raise core.Machinery(f'generation gen_guided2 failed: {res.error or res.violated}')
-    chk.mc_runs.append(dict(res.summary(), name='gen_guided2', module='System_Gen.tla'))
-    guided2 = leaves([json.loads(r[1])['h'] for r in tlc.printed(res, 'SCHED')])
-    chk.counters['system_scarcity_histories'] = len(guided2)
-    if not thorough:
-        rnd.shuffle(guided2)
-        guided2 = guided2[:600]
+    guided2 = scarcity_histories(chk, thorough, rnd)
     hs = hs + guided + guided2
     jobs = [{'id': i, 'events': h, 'drain': True} for i, h in enumerate(hs)]
     files = chk.run_harness('compose_h', jobs)
